@@ -77,6 +77,8 @@ func sortOf(t types.Type) *Sort {
 		return SInt
 	case "math/big.Int":
 		return SInt
+	case "math/big.Rat":
+		return SReal
 	case "github.com/cosmos/cosmos-sdk/types.Context", "context.Context":
 		return nil
 	}
@@ -122,6 +124,9 @@ func sortOf(t types.Type) *Sort {
 	case *types.Pointer:
 		if namedPath(u.Elem()) == "math/big.Int" {
 			return SInt
+		}
+		if namedPath(u.Elem()) == "math/big.Rat" {
+			return SReal
 		}
 		return nil
 	case *types.Interface:
